@@ -3,7 +3,9 @@
 fault enumeration in sched-evt: an honest scripted session between two live transports visits every
 stage; per execution exactly ONE message the victim parses deviates from the honest one (typed field
 template x deviation generator, vmc/connfix.py).  The deviating message is emitted by the peer's real
-packetizer (plaintext and encrypted phase alike); banner deviations are byte edits on the wire.
+packetizer (plaintext and encrypted phase alike); banner deviations are byte edits on the wire; with
+compression negotiated the deviation may sit in the compressed form of an honest message (the peer's
+compressor output is edited before encryption).
 Oracle: every exception the victim's public API raised and every exception ever stored for
 get_exception() is an SSHException, EOFError or OSError (socket error).
 """
@@ -31,7 +33,14 @@ META = {
             "2^9000}; name-list -> {+empty element, +non-ASCII}; the same inside nested public-key / signature "
             "blobs (ed25519, ecdsa, rsa); 64 bytes appended; zero-length payload; same "
             "body under another type (12 types quick / all 256 thorough); and at 12 stages (quick; every replaced "
-            "message in thorough) the message replaced by every type 0..255 with an empty body.",
+            "message in thorough) the message replaced by every type 0..255 with an empty body. Further dimensions: "
+            "(deferred use) EXT_INFO deviations x the authentication method that follows {password, publickey rsa / "
+            "ecdsa, keyboard-interactive, none} - the stored extension value is consumed only then; (unsolicited "
+            "userauth layer) every userauth-layer message injected between two attempts (after a rejected one) and "
+            "after success, both roles; (compression) sessions with zlib / zlib@openssh.com negotiated, 26 messages "
+            "from the first compressed packet to CHANNEL_CLOSE whose *compressed* payload deviates: {garbage, truncated "
+            "deflate block (the next honest packet continues it), empty, empty stored block (inflates to nothing), fresh "
+            "zlib stream in mid-stream}.",
     "note": "exactly one deviating message per execution (pairs are not explored); peer is a real paramiko "
             "Transport; key = (victim role, stage, innermost paramiko frame outside message.py/util.py, class)",
     "design_ref": "4/C38",
@@ -673,7 +682,7 @@ def execute(tpl, dev, role=None, banner=None, probe_cfg=None):
         p.close()
         s.quiesce()
 
-    ex, hung = CF.run(body, horizon=45.0, step_budget=30_000, wd=6.0)
+    ex, hung = CF.run(body, horizon=45.0, step_budget=30_000, wd=20.0)
     out["outcome"] = ex.outcome
     out["error"] = repr(ex.error) if ex.error is not None else None
     out["hung"] = hung
@@ -853,15 +862,19 @@ def main(tier):
                     "the intended point of the honest session (the honest message was seen and replaced, or the "
                     "injection point was reached)",
                     ["exactly one deviating message per execution; the peer is otherwise an honest paramiko Transport",
-                     "default algorithms except the kex family under test; ed25519 host key",
+                     "default algorithms except the kex family under test (and zlib / zlib@openssh.com forced on both "
+                     "sides in the compression templates); ed25519 host key",
                      "victim timeouts shortened (auth/channel 5 s, handshake 8 s virtual); a victim API still blocked "
                      "after 45 virtual seconds is recorded as a hang, not judged (C13)",
-                     "a thread spinning for 6 CPU-seconds without a scheduling point is interrupted and reported "
+                     "a thread spinning for 20 CPU-seconds without a scheduling point is interrupted and reported "
                      "as HangDetected at its site"])
     tpls = templates()
     ncfg = probe_templates(tpls)
     cs = cases(tier, tpls)
     ck.extra["bound"] = {"templates": len(tpls), "honest_configurations_probed": ncfg, "cases": len(cs),
+                         "compressed_payload_templates": sum(1 for t in tpls if t.get("devs") == "z"),
+                         "deferred_use_templates": sum(1 for t in tpls if "/then-" in t["name"]),
+                         "unsolicited_userauth_templates": sum(1 for t in tpls if t["stage"] == "auth-unsolicited"),
                          "banner_variants": len(BANNERS),
                          "templates_by_role": {r: sum(1 for t in tpls if t["role"] == r) for r in (C, S)}}
     # deterministic interleaving so that chunks have similar cost
